@@ -317,7 +317,8 @@ def reference_value_of(f, ctx):
     shift = getattr(env, "comp_shift", None)
     shift = shift.get(f, 0) if shift else 0
     # arguments (basis functions) are real also in complex mode (UFL's documented convention)
-    imag_ok = type(f).__name__ != "Argument" or getattr(env.fields, "complex_arguments", False)
+    # (decided on the data key, so that an argument aliased to a coefficient's data gets all of it)
+    imag_ok = key[0] != "arg" or getattr(env.fields, "complex_arguments", False)
     return env.fields.reference_value(key, el, cell, side, Xjets(ctx), xjets(ctx), imag_ok=imag_ok, shift=shift)
 
 
@@ -816,7 +817,7 @@ def _inner_side(o):
             return "+"
         if n == "NegativeRestricted":
             return "-"
-        if n in ("Grad", "ReferenceGrad", "ReferenceValue"):
+        if n in ("Grad", "ReferenceGrad", "ReferenceValue", "Div", "Curl", "NablaGrad", "NablaDiv", "ReferenceDiv"):
             o = o.ufl_operands[0]
             continue
         return None
@@ -849,14 +850,14 @@ def _grad(o, ctx, rho):
 @handler("NablaGrad")
 def _nabla_grad(o, ctx, rho):
     _need_jets(ctx)
-    g = phys_grad(sem(o.ufl_operands[0], ctx, rho), ctx.cell())
+    g = phys_grad(sem(o.ufl_operands[0], ctx, rho), _deriv_cell(o, ctx, type(o).__name__))
     return np.moveaxis(g, -1, 0).copy() if g.ndim > 1 else g
 
 
 @handler("Div")
 def _div(o, ctx, rho):
     _need_jets(ctx)
-    g = phys_grad(sem(o.ufl_operands[0], ctx, rho), ctx.cell())
+    g = phys_grad(sem(o.ufl_operands[0], ctx, rho), _deriv_cell(o, ctx, type(o).__name__))
     # div f = sum_i d f[..., i] / dx_i
     return _trace_last_two(g)
 
@@ -877,7 +878,7 @@ def _trace_last_two(g):
 @handler("NablaDiv")
 def _nabla_div(o, ctx, rho):
     _need_jets(ctx)
-    g = phys_grad(sem(o.ufl_operands[0], ctx, rho), ctx.cell())
+    g = phys_grad(sem(o.ufl_operands[0], ctx, rho), _deriv_cell(o, ctx, type(o).__name__))
     # nabla_div f = sum_i d f[i, ...] / dx_i
     g2 = np.moveaxis(g, 0, -2) if g.ndim > 2 else g
     return _trace_last_two(g2)
@@ -887,7 +888,7 @@ def _nabla_div(o, ctx, rho):
 def _curl(o, ctx, rho):
     _need_jets(ctx)
     f = sem(o.ufl_operands[0], ctx, rho)
-    g = phys_grad(f, ctx.cell())
+    g = phys_grad(f, _deriv_cell(o, ctx, "Curl"))
     sh = o.ufl_operands[0].ufl_shape
     if sh == ():
         # 2D scalar -> vector (df/dy, -df/dx)
@@ -909,7 +910,7 @@ def _curl(o, ctx, rho):
 @handler("ReferenceDiv")
 def _reference_div(o, ctx, rho):
     _need_jets(ctx)
-    g = ref_grad(sem(o.ufl_operands[0], ctx, rho), ctx.cell().tdim)
+    g = ref_grad(sem(o.ufl_operands[0], ctx, rho), _deriv_cell(o, ctx, "ReferenceDiv").tdim)
     return _trace_last_two(g)
 
 
